@@ -12,7 +12,8 @@ X_LOC = (pathlib.Path(__file__).parent / "res" / "x_known.xsd").as_uri()
 XSD = (f'<xs:schema xmlns:xs="{cm.XS}" targetNamespace="{T}" xmlns:t="{T}" elementFormDefault="qualified">'
        f'<xs:import namespace="{X}" schemaLocation="{X_LOC}"/>'
        '<xs:element name="lib"><xs:complexType><xs:sequence>'
-       '<xs:element name="item" type="t:item" maxOccurs="unbounded"/></xs:sequence></xs:complexType></xs:element>'
+       '<xs:element name="item" type="t:item" maxOccurs="unbounded"/>'
+       '<xs:any namespace="##other" processContents="lax" minOccurs="0"/></xs:sequence></xs:complexType></xs:element>'
        '<xs:complexType name="item"><xs:sequence>'
        '<xs:element name="title" type="xs:string"/><xs:element name="qty" type="xs:int"/>'
        '<xs:element name="note" type="xs:string" minOccurs="0"/>'
@@ -35,12 +36,12 @@ XSD = (f'<xs:schema xmlns:xs="{cm.XS}" targetNamespace="{T}" xmlns:t="{T}" eleme
 
 # XSD 1.1 variant: the root carries an INHERITABLE attribute (inherited by every descendant for conditional type
 # assignment; it has no influence on validity: spec/Validator.tla applies unchanged)
-XSD11 = XSD.replace('maxOccurs="unbounded"/></xs:sequence></xs:complexType></xs:element>',
-                    'maxOccurs="unbounded"/></xs:sequence><xs:attribute name="lang" type="xs:string" '
+XSD11 = XSD.replace('processContents="lax" minOccurs="0"/></xs:sequence></xs:complexType></xs:element>',
+                    'processContents="lax" minOccurs="0"/></xs:sequence><xs:attribute name="lang" type="xs:string" '
                     'inheritable="true"/></xs:complexType></xs:element>', 1)
 assert XSD11 != XSD
 
-TEXT = {"memo": {"ok": "draft", "bad": "final"}, "ext": {"ok": "e"}, "title": {"ok": "abc"}, "qty": {"ok": "5", "bad": "x"}, "note": {"ok": "n"}}
+TEXT = {"num": {"ok": "5", "bad": "x"}, "memo": {"ok": "draft", "bad": "final"}, "ext": {"ok": "e"}, "title": {"ok": "abc"}, "qty": {"ok": "5", "bad": "x"}, "note": {"ok": "n"}}
 ATTR = {"uc": {"ok": "123", "bad": "zzz"}, "up": {"ok": "5"}, "ref": {"ok": "x:known"}, "id": {"ok": "7", "bad": "x"}, "flag": {"ok": "true", "bad": "maybe"}, "bogus": {"ok": "1"}}
 
 
@@ -53,7 +54,7 @@ def render(nodes, prefix="t", default_ns=False, root_attrs="", inner_default=Fal
         depth = len(n["path"])
         while len(stack) > depth:
             out.append(f"</{stack.pop()}>")
-        tag = {"ext": "x:known", "unk": "x:unk"}.get(n["name"]) or \
+        tag = {"ext": "x:known", "unk": "x:unk", "wrap": "x:wrap", "num": "x:num"}.get(n["name"]) or \
             (n["name"] if (inner_default and depth >= 1) else pfx + n["name"])
         at = "".join(f' {a}="{ATTR[a][v]}"' for a, v in sorted(map(tuple, n["attrs"])))
         if depth == 0:
